@@ -351,6 +351,12 @@ def gen_case(rng, kind, quick, mode=None):
         designs = [[rng.uniform(-4, 4) for _ in range(n)] for _ in range(nd)]
         objs = [[rng.uniform(-2, 2) for _ in range(1 + 2 * n)] for _ in range(user)]
         cons = [[rng.uniform(-2, 2) for _ in range(1 + 2 * n)] for _ in range(rng.choice([0, 0, 0, 1, 2]))]
+    # an exact parameter beside uncertain ones (tolerance 0): still two neighbours per axis, 2n+1 calls per design
+    # (tiny non-zero tolerances are not generated: |f(x) - f(x +- tol)| is then dominated by the rounding of f itself)
+    if kind == "wc":
+        for i in range(n):
+            if rng.random() < 0.12:
+                tol[i] = 0.0
     # coordinates on, or within the finite-difference step of, the declared bounds [-5, 5] (designs that clipping
     # operators produce): the neighbours / displaced points are what the statement says, whatever the bounds are
     for d in designs:
